@@ -113,7 +113,7 @@ theorem sphere_uv_nverts (a b : Nat) : sphere_uvNVerts a b = a * b + 2 := by
 
 /-- two pole fans of `n_long` triangles and `n_lat - 1` rows of `n_long` quads -/
 theorem sphere_uv_nfaces (a b : Nat) : (sphere_uvFaces a b).length = 2 * b + (a - 1) * b := by
-  unfold sphere_uvFaces
+  rw [sphere_uvFaces_norm]; unfold sphere_uvFacesCanon
   rw [List.length_append, length_flatMap_const _ _ 2, length_flatMap_const _ _ b]
   · simp; omega
   · intro j _; rw [length_flatMap_const _ _ 1] <;> simp
@@ -126,7 +126,7 @@ theorem cylinder_nverts (N : Nat) (fc : Bool) : cylinderNVerts N fc = 2 * N + (i
   · intro i _; rw [length_flatMap_const _ _ 1] <;> simp
 
 theorem cylinder_nfaces (N : Nat) (fc : Bool) : (cylinderFaces N fc).length = 2 * N * (if fc then 2 else 1) := by
-  unfold cylinderFaces
+  rw [cylinderFaces_norm]; unfold cylinderFacesCanon
   rw [List.length_append, length_flatMap_const (List.range N) _ 2]
   · cases fc
     · simp; omega
@@ -144,7 +144,7 @@ theorem ring_nverts (N c : Nat) (o : Bool) (h : 1 ≤ N * c) : ringNVerts N c o 
   · intro i _; simp
 
 theorem ring_nfaces (N c : Nat) (o : Bool) (h : 1 ≤ N * c) : (ringFaces N c o).length = N * c := by
-  unfold ringFaces
+  rw [ringFaces_norm]; unfold ringFacesCanon
   rw [List.length_append, length_flatMap_const _ _ 1]
   · cases o <;> simp <;> omega
   · intro i _; simp
@@ -157,7 +157,7 @@ theorem flat_ring_nverts (N c : Nat) : flat_ringNVerts N c = N * c + 2 := by
   · intro i _; simp
 
 theorem flat_ring_nfaces (N c : Nat) : (flat_ringFaces N c).length = N * c := by
-  unfold flat_ringFaces
+  rw [flat_ringFaces_norm]; unfold flat_ringFacesCanon
   rw [length_flatMap_const _ _ 1] <;> simp
 
 /-- triangular numbers: `nv(nv+1)/2` vertices whenever `nu ≥ nv` (rows are complete) -/
@@ -208,7 +208,8 @@ theorem torus_inRange (M N : Nat) (t : Bool) :
 theorem sphere_uv_inRange (a b : Nat) (ha : 1 ≤ a) :
     ∀ f ∈ sphere_uvFaces a b, ∀ k ∈ f, k < sphere_uvNVerts a b := by
   intro f hf k hk
-  simp only [sphere_uvFaces, List.mem_append, List.mem_flatMap, List.mem_range] at hf
+  rw [sphere_uvFaces_norm] at hf
+  simp only [sphere_uvFacesCanon, List.mem_append, List.mem_flatMap, List.mem_range] at hf
   rw [sphere_uv_nverts] at *
   have hab : b * (a - 1) + b = a * b := by
     obtain ⟨a', rfl⟩ : ∃ a', a = a' + 1 := ⟨a - 1, by omega⟩
@@ -229,7 +230,8 @@ theorem cylinder_inRange (N : Nat) (fc : Bool) :
     ∀ f ∈ cylinderFaces N fc, ∀ k ∈ f, k < cylinderNVerts N fc := by
   intro f hf k hk
   rw [cylinder_nverts]
-  simp only [cylinderFaces, List.mem_append, List.mem_flatMap, List.mem_range] at hf
+  rw [cylinderFaces_norm] at hf
+  simp only [cylinderFacesCanon, List.mem_append, List.mem_flatMap, List.mem_range] at hf
   rcases hf with hf | ⟨i, hi, hf⟩
   · cases fc
     · simp at hf
@@ -246,7 +248,8 @@ theorem ring_inRange (N c : Nat) (o : Bool) (h : 1 ≤ N * c) :
     ∀ f ∈ ringFaces N c o, ∀ k ∈ f, k < ringNVerts N c o := by
   intro f hf k hk
   rw [ring_nverts N c o h]
-  simp only [ringFaces, List.mem_append, List.mem_flatMap, List.mem_range'_1] at hf
+  rw [ringFaces_norm] at hf
+  simp only [ringFacesCanon, List.mem_append, List.mem_flatMap, List.mem_range'_1] at hf
   rcases hf with ⟨i, hi, hf⟩ | hf
   · have hm : (i + 1) % (N * c + 1) = i + 1 := Nat.mod_eq_of_lt (by omega)
     cases o <;> simp [hm] at hf <;> subst hf <;> simp at hk <;> rcases hk with rfl | rfl | rfl <;> simp <;> omega
@@ -256,7 +259,8 @@ theorem flat_ring_inRange (N c : Nat) :
     ∀ f ∈ flat_ringFaces N c, ∀ k ∈ f, k < flat_ringNVerts N c := by
   intro f hf k hk
   rw [flat_ring_nverts]
-  simp only [flat_ringFaces, List.mem_flatMap, List.mem_range] at hf
+  rw [flat_ringFaces_norm] at hf
+  simp only [flat_ringFacesCanon, List.mem_flatMap, List.mem_range] at hf
   obtain ⟨i, hi, hf⟩ := hf
   simp at hf; subst hf; simp at hk
   rcases hk with rfl | rfl | rfl <;> omega
